@@ -733,7 +733,9 @@ impl Iterator for EncloserCandidates<'_> {
 
         if &cur != soa {
             let next = cur.base_name();
-            debug_assert_ne!(next, Name::root());
+            // `encloser_candidates()` starts the walk only below `soa`, so it ends at `soa`; the root is
+            // reached only when `soa` is the root zone itself (a name directly below an NSEC3-signed root).
+            debug_assert!(next != Name::root() || soa.is_root());
             self.cur = Some(next);
         }
 
